@@ -19,6 +19,15 @@ def with_cr(text):
 
 
 def histories(tier, rng):
+    # completion records: every kind of roDelete (this running order, another one, blank roID, no roID tag), then a second
+    # roDelete and another message, which must both be refused - at most one completion record, whatever the first said
+    for layout in ('plain', 'trailing'):
+        ro = to_text(gens.make_ro(['A', 'B'], layout=layout))
+        for rid in ('RO1', 'OTHER', None, 'absent'):
+            d = ro_delete(30, ro_id=None if rid == 'absent' else rid)
+            if rid == 'absent':
+                d[3].remove(d[3].find('roID'))
+            yield {'ro': ro, 'msgs': [to_text(d), to_text(ro_delete(31)), to_text(story_append(32, [rich_story(rng, 'Z', 1)])), to_text(d)]}
     n = 60 if tier == 'quick' else 600
     for h in range(n):
         sids = gens.STORY_IDS[:rng.randrange(1, 4)]
@@ -50,11 +59,16 @@ def histories(tier, rng):
                 if rng.random() < 0.5:
                     d[3].find('storyBody').set('Read1stMEMasBody', 'true')
             elif r < 0.96:
-                d = ro_delete(20 + j)
+                # the completion record: a roDelete naming this / another / no running order; later ones must be refused
+                d = ro_delete(20 + j, ro_id=rng.choice(['RO1', 'RO1', 'OTHER', None]))
+                if rng.random() < 0.3:
+                    d[3].remove(d[3].find('roID'))
             else:
                 d = gens.make_ro(['X'], message_id=20 + j)
             t = gens.vary_envelope(rng, with_cr(to_text(d)))
             msgs.append(t)
+            if d[3].tag == 'roDelete' and rng.random() < 0.6:
+                msgs.append(to_text(ro_delete(60 + j)))          # a second roDelete must be refused: one completion record
             res = impl.run_add(state, t)
             if 'tree' in res and not res.get('err'):
                 try:
